@@ -46,7 +46,10 @@ pub struct Obs {
     /// hub delegations per validator
     pub delegations: BTreeMap<String, u128>,
     pub delegated: u128,
+    /// registered validators as stored by the registry (sorted by address)
     pub registry: Vec<String>,
+    /// the registry's GetValidatorsForDelegation answer, in the order given
+    pub registry_query: Vec<(String, u128)>,
 }
 
 /// A public query failed: reported by the runner as a violation `<ID>/query-failed/<name>` of the property
@@ -165,6 +168,23 @@ pub fn reward_obs(w: &World, who: &[String]) -> RewardObs {
     }
     RewardObs { state: reward_state(w), holders, accrued, listed }
 }
+/// The registered validators as *stored* by the registry (read from its storage, not through its query).
+pub fn registry_stored(w: &World) -> Vec<String> {
+    let store = &w.contracts.get(REG).unwrap_or_else(|| qfail("registry storage", "no registry".into())).1;
+    let mut v: Vec<String> = basset_sei_validators_registry::registry::REGISTRY
+        .range(store, None, None, cosmwasm_std::Order::Ascending)
+        .map(|r| r.unwrap_or_else(|e| qfail("registry storage", e.to_string())).1.address)
+        .collect();
+    v.sort();
+    v
+}
+/// The answer of the registry's GetValidatorsForDelegation query, in the order given: (validator, delegation).
+pub fn registry_query(w: &World) -> Vec<(String, u128)> {
+    let r: Vec<basset_sei_validators_registry::registry::ValidatorResponse> = w
+        .query(REG, &basset_sei_validators_registry::msg::QueryMsg::GetValidatorsForDelegation {})
+        .unwrap_or_else(|e| qfail("registry query", e));
+    r.into_iter().map(|x| (x.address, x.total_delegated.u128())).collect()
+}
 pub fn registry_list(w: &World) -> Vec<String> {
     let r: Vec<basset_sei_validators_registry::registry::ValidatorResponse> = w
         .query(REG, &basset_sei_validators_registry::msg::QueryMsg::GetValidatorsForDelegation {})
@@ -209,7 +229,8 @@ pub fn observe(w: &World, cfg: &Cfg) -> Obs {
         bank,
         delegations,
         delegated,
-        registry: registry_list(w),
+        registry: registry_stored(w),
+        registry_query: registry_query(w),
     }
 }
 
